@@ -31,6 +31,13 @@ theorem new_sized (hdr : PicHdr) (fmt : SrcFmt) (w h : Nat) (hd : fmt.dims = som
   refine ⟨_, rfl, ⟨hd, by simp, by simp, by simp, rfl, ?_, ?_, ?_⟩⟩ <;>
     (intro i hi; simp)
 
+/-- `planeSizes` (what the driver prints for the `SZ` correspondence lines, sizes far above what a decode case can afford) is
+exactly what `DecodedPicture::new` allocates in the model -/
+theorem new_planeSizes (hdr : PicHdr) (fmt : SrcFmt) (w h : Nat) (hd : fmt.dims = some (w, h)) :
+    ∃ p, DecPic.new hdr fmt = some p ∧ (p.luma.size, p.cb.size, p.chromaSpr) = planeSizes w h ∧ p.cr.size = p.cb.size := by
+  obtain ⟨p, hp, hs⟩ := new_sized hdr fmt w h hd
+  exact ⟨p, hp, by simp [planeSizes, hs.luma, hs.cb, hs.spr], by rw [hs.cr, hs.cb]⟩
+
 /-- For every width and height of at least one (1-row, 1-column, odd, fewer than ten columns) and every quantizer 1..31:
 deblocking each plane with the strength tabulated for the quantizer and converting the result to RGBA completes without
 panic and yields exactly width x height pixels. -/
